@@ -69,6 +69,18 @@ impl OverlayFS {
             .join(format!(".whiteout/{}_wo", &path[1..]))
     }
 
+    fn clear_whiteout(&self, path: &str) -> VfsResult<()> {
+        let whiteout_path = self.whiteout_path(path)?;
+        if whiteout_path.exists()? {
+            match whiteout_path.remove_file() {
+                // cleared concurrently by another creator of the same entry
+                Err(error) if matches!(error.kind(), VfsErrorKind::FileNotFound) => {}
+                other => other?,
+            }
+        }
+        Ok(())
+    }
+
     fn ensure_has_parent(&self, path: &str) -> VfsResult<()> {
         let separator = path.rfind('/');
         if let Some(index) = separator {
@@ -122,12 +134,17 @@ impl FileSystem for OverlayFS {
             };
         }
         self.ensure_has_parent(path)?;
-        self.write_path(path)?.create_dir()?;
-        let whiteout_path = self.whiteout_path(path)?;
-        if whiteout_path.exists()? {
-            whiteout_path.remove_file()?;
+        let result = self.write_path(path)?.create_dir();
+        match &result {
+            Ok(()) => self.clear_whiteout(path)?,
+            Err(error) if matches!(error.kind(), VfsErrorKind::DirectoryExists) => {
+                // created concurrently in the write layer, its whiteout may not be cleared yet:
+                // once this call has returned, the directory must be visible as a parent
+                self.clear_whiteout(path)?
+            }
+            Err(_) => {}
         }
-        Ok(())
+        result
     }
 
     fn open_file(&self, path: &str) -> VfsResult<Box<dyn SeekAndRead + Send>> {
